@@ -12,7 +12,7 @@ Audit(m, c) ==
       Ev("Walk", [tag |-> Wild, ref |-> Wild, dir |-> 1], [list |-> Listing(m, Wild, Wild)]),
       Ev("Reopen", [cache |-> c], [ret |-> OK, list |-> Listing(m, Wild, Wild)]),
       Ev("Number", [tag |-> Wild], [ret |-> Count(m, Wild)]),
-      Ev("NewRef", [a |-> 0], [ret |-> "any"]),
+      Ev("NewRef", [a |-> 0], [ret |-> "any", fresh |-> TRUE]),
       Ev("Walk", [tag |-> Wild, ref |-> Wild, dir |-> 1], [list |-> Listing(m, Wild, Wild)])>>
 LastOp == hist'[Len(hist')].op
 \* keys are interchangeable at the level of the blocks: a new element takes the smallest reference not in use
